@@ -3,17 +3,20 @@
 Files of the universe and their context names:
     a.py -> file.a, b.py -> file.b, scripts/s/x.py -> scripts.s.x,
     apps/app1/__init__.py -> apps.app1, apps/app1/sib.py -> apps.app1.sib, apps/app2.py -> apps.app2,
-    modules/m1.py -> modules.m1, modules/m2/__init__.py -> modules.m2, modules/m2/sib.py -> modules.m2.sib
+    modules/m1.py -> modules.m1, modules/m2/__init__.py -> modules.m2, modules/m2/sib.py -> modules.m2.sib,
+    apps/app11.py -> apps.app11, modules/m11.py -> modules.m11, modules/leaf.py -> modules.leaf
 """
 
 FILES = {
     "a.py": "file.a", "b.py": "file.b", "scripts/s/x.py": "scripts.s.x",
     "apps/app1/__init__.py": "apps.app1", "apps/app1/sib.py": "apps.app1.sib", "apps/app2.py": "apps.app2",
     "modules/m1.py": "modules.m1", "modules/m2/__init__.py": "modules.m2", "modules/m2/sib.py": "modules.m2.sib",
+    # names that are string prefixes of each other (app1 / app11, m1 / m11) and a module below the shared one
+    "apps/app11.py": "apps.app11", "modules/m11.py": "modules.m11", "modules/leaf.py": "modules.leaf",
 }
 CTX2FILE = {v: k for k, v in FILES.items()}
-AUTOLOAD = {"file.a", "file.b", "scripts.s.x", "apps.app1", "apps.app2"}
-APP_OF = {"apps.app1": "app1", "apps.app2": "app2"}
+AUTOLOAD = {"file.a", "file.b", "scripts.s.x", "apps.app1", "apps.app2", "apps.app11"}
+APP_OF = {"apps.app1": "app1", "apps.app2": "app2", "apps.app11": "app11"}
 
 
 def root_of(ctx):
@@ -27,7 +30,7 @@ class ReloadModel:
         self.edges = edges
         self.files = {p: {"gen": 1, "mtime": 0, "hidden": False} for p in FILES}  # present files
         self.hidden_dirs = set()
-        self.apps = {"app1": 1, "app2": 1}  # configured apps -> config value
+        self.apps = {"app1": 1, "app2": 1, "app11": 1}  # configured apps -> config value
         self.loaded = {}  # ctx -> dict(gen, mtime, appcfg, imports)
 
     # -- file system view ------------------------------------------------------------------------------
